@@ -459,8 +459,119 @@ def p_warp_mixed(src_shape, dst_shape, A, src_dtype, dst_dtype, dst_nodata, seed
     return True, why
 
 
+def exact_nn(im2d, T, dst_shape, fill, dtype, src_nodata=None):
+    """exact nearest-neighbour reference of one 2-d plane: dst[d] = src[floor(T(d + 1/2))] (Fractions), fill outside
+    the source and where the source pixel equals src_nodata"""
+    ny, nx = im2d.shape
+    ref = np.full(tuple(dst_shape), fill, dtype=dtype)
+    for dy in range(dst_shape[0]):
+        for dx in range(dst_shape[1]):
+            px, py = G.aapply(T, (dx + Fr(1, 2), dy + Fr(1, 2)))
+            kx, ky = math.floor(px), math.floor(py)
+            if 0 <= kx < nx and 0 <= ky < ny and not (src_nodata is not None and im2d[ky, kx] == src_nodata):
+                ref[dy, dx] = im2d[ky, kx]
+    return ref
+
+
+def nd_source(layout, src_shape, nb, dtype):
+    """n-d source with distinct values per plane; layout: 'yx', 'byx' (planes first), 'yxb' (planes last),
+    'tyxb' (one leading and one trailing axis).  Returns (array, ydim, list of (index tuple, 2-d plane))"""
+    ny, nx = src_shape
+    planes = [((np.arange(ny * nx).reshape(ny, nx) * (b + 1) + 1 + 7 * b) % 100 + 1).astype(dtype) for b in range(nb)]
+    if layout == "yx":
+        return planes[0], None, [((), planes[0])]
+    if layout == "byx":
+        return np.stack(planes, axis=0), 1, [((b,), planes[b]) for b in range(nb)]
+    if layout == "yxb":
+        return np.stack(planes, axis=-1), 0, [((b,), planes[b]) for b in range(nb)]
+    t2 = [np.stack(planes, axis=-1), np.stack(planes[::-1], axis=-1)]
+    return np.stack(t2, axis=0), 1, [((t, b), (planes if t == 0 else planes[::-1])[b]) for t in range(2) for b in range(nb)]
+
+
+def plane_of(arr, layout, idx):
+    if layout == "yx":
+        return arr
+    if layout == "byx":
+        return arr[idx[0]]
+    if layout == "yxb":
+        return arr[..., idx[0]]
+    return arr[idx[0], :, :, idx[1]]
+
+
+def p_warp_nd(src_shape, dst_shape, A, dtype, layout, nb, ydim_mode, dst_nodata):
+    """rio_reproject on stacks of planes in every axis layout ((band,y,x), (y,x,band), (time,y,x,band)) with ydim
+    left to the default or passed explicitly (0 included): every plane must equal the exact nearest-neighbour
+    image of the corresponding source plane"""
+    from affine import Affine
+    from odc.geo.warp import rio_reproject
+    src, dst = G.mk_pair(tuple(src_shape), tuple(dst_shape), Affine(*[float(Fr(v)) for v in A]))
+    T = G.true_A(src, dst)
+    arr, ydim, planes = nd_source(layout, tuple(src_shape), nb, dtype)
+    if ydim_mode == "default":
+        if layout in ("yxb", "tyxb"):
+            return True, "layout needs an explicit ydim"
+        kw = {}
+    else:
+        kw = {"ydim": ydim} if ydim is not None else {}
+    dshape = list(arr.shape)
+    if layout != "yx":
+        dshape[ydim], dshape[ydim + 1] = dst_shape
+    else:
+        dshape = list(dst_shape)
+    fill = dst_nodata if dst_nodata is not None else (float("nan") if dtype.startswith("float") else 0)
+    got = np.full(tuple(dshape), 77, dtype=dtype)
+    with warnings.catch_warnings():
+        warnings.simplefilter("ignore")
+        rio_reproject(arr, got, src, dst, "nearest", dst_nodata=dst_nodata, **kw)
+    for idx, pl in planes:
+        ref = exact_nn(pl, T, dst_shape, fill, dtype)
+        g = plane_of(got, layout, idx)
+        if not np.array_equal(g, ref, equal_nan=dtype.startswith("float")):
+            return False, (f"layout {layout} ydim={kw.get('ydim', 'default')}: plane {idx} of the warped stack is {g.tolist()} but the exact "
+                           f"nearest-neighbour image of source plane {idx} is {ref.tolist()}")
+    return True, f"{len(planes)} planes"
+
+
+def p_xr_reproject(src_shape, dst_shape, A, dtype, layout, nb, src_nodata, dst_nodata, chunks):
+    """the public xarray entry point (xr_reproject / .odc.reproject) on numpy-backed and dask-backed arrays, every
+    axis layout, source nodata attribute and dst_nodata given or not: every plane must equal the exact
+    nearest-neighbour image on a canvas of the fill (dst_nodata, else the source nodata, else NaN / 0), also in
+    destination chunks that do not touch the source"""
+    from affine import Affine
+    from odc.geo.xr import wrap_xr, xr_reproject
+    src, dst = G.mk_pair(tuple(src_shape), tuple(dst_shape), Affine(*[float(Fr(v)) for v in A]))
+    T = G.true_A(src, dst)
+    arr, _, planes = nd_source(layout, tuple(src_shape), nb, dtype)
+    if layout == "byx":
+        xx = wrap_xr(arr, src, nodata=src_nodata, time=[f"2020-01-{b + 1:02d}" for b in range(nb)])
+    elif layout == "tyxb":
+        xx = wrap_xr(arr, src, nodata=src_nodata, time=["2020-01-01", "2020-01-02"])
+    else:
+        xx = wrap_xr(arr, src, nodata=src_nodata)
+    if chunks is not None:
+        cy, cx = chunks
+        xx = xx.chunk({"y": cy, "x": cx})
+    kw = {"dst_nodata": dst_nodata} if dst_nodata is not None else {}
+    if chunks is not None:
+        kw["chunks"] = tuple(chunks)
+    with warnings.catch_warnings():
+        warnings.simplefilter("ignore")
+        out = xr_reproject(xx, dst, resampling="nearest", **kw)
+        got = np.asarray(out.values)
+    fill = dst_nodata if dst_nodata is not None else (src_nodata if src_nodata is not None else (float("nan") if dtype.startswith("float") else 0))
+    why = f"result dims {out.dims} shape {got.shape}"
+    for idx, pl in planes:
+        ref = exact_nn(pl, T, dst_shape, fill, dtype, src_nodata)
+        g = plane_of(got, layout, idx)
+        if g.shape != ref.shape or not np.array_equal(g, ref, equal_nan=dtype.startswith("float")):
+            return False, why + (f": plane {idx} ({'dask chunks ' + str(chunks) if chunks else 'numpy'}) is {g.tolist()} but the exact nearest-neighbour "
+                                 f"image on a canvas of {fill} is {ref.tolist()}")
+    return True, why
+
+
 PREDICATES = {"paste_warp": p_paste_warp, "can_paste": p_can_paste, "warp_nodata": p_warp_nodata,
-              "warp_accumulate": p_warp_accumulate, "warp_mixed": p_warp_mixed}
+              "warp_accumulate": p_warp_accumulate, "warp_mixed": p_warp_mixed, "warp_nd": p_warp_nd,
+              "xr_reproject": p_xr_reproject}
 
 
 def search(out, tier):
@@ -528,6 +639,31 @@ def search(out, tier):
         fill = rng.choice([False, True]) if dtype == "bool" else rng.choice([0, 120] if dtype.startswith("u") else [-1, 120, 0])
         out.count(f"accumulate:{dtype}")
         run("warp_accumulate", list(nd), tiles, dtype, fill, i)
+    # stacks of planes in every axis layout through rio_reproject (ydim default / explicit, 0 included) and through
+    # the public xarray entry point, numpy- and dask-backed (destination chunks outside the source included)
+    lay = ["byx", "yxb", "tyxb", "yx"]
+    for i in range(24 if tier == "quick" else 240):
+        layout = lay[i % 4]
+        dtype = ["uint8", "int16", "float32", "int8"][(i // 4) % 4]
+        ns = (rng.randint(2, 7), rng.randint(2, 7))
+        nd = (rng.randint(2, 7), rng.randint(2, 7))
+        A6 = unit_family(rng, ns, nd, 0.05, 1e-3, small_dev=False, placements=("left", "right", "inside", "cover", "disjoint_hi"))
+        A6[2], A6[5] = Fr(round(A6[2])) + rng.choice([Fr(0), Fr(1, 64)]), Fr(round(A6[5])) + rng.choice([Fr(0), Fr(-1, 64)])
+        dn = rng.choice([None, 120] if not dtype.startswith("float") else [None, -1.0])
+        out.count(f"warp-nd:{layout}")
+        run("warp_nd", list(ns), list(nd), [str(v) for v in A6], dtype, layout, rng.randint(2, 3), rng.choice(["default", "explicit", "explicit"]), dn)
+    for i in range(24 if tier == "quick" else 240):
+        layout = lay[i % 4]
+        dtype = ["uint8", "int16", "float32", "uint16"][(i // 4) % 4]
+        ns = (rng.randint(3, 8), rng.randint(3, 8))
+        nd = (rng.randint(6, 12), rng.randint(6, 12))
+        A6 = unit_family(rng, ns, nd, 0.05, 1e-3, small_dev=False, placements=("left", "right", "inside", "disjoint_hi", "inside"))
+        A6[2], A6[5] = Fr(round(A6[2])), Fr(round(A6[5]))
+        sn = rng.choice([None, 200, 200] if dtype != "float32" else [None, -5.0, -5.0])
+        dn = rng.choice([None, 120, 120] if dtype != "float32" else [None, -1.0, -1.0])
+        chunks = rng.choice([None, [3, 3], [4, 2], [2, 5]])
+        out.count(f"xr-reproject:{layout}:{'dask' if chunks else 'numpy'}")
+        run("xr_reproject", list(ns), list(nd), [str(v) for v in A6], dtype, layout, 2, sn, dn, chunks)
     # mixed pixel types: integer / float sources into float / integer destinations, dst_nodata omitted or given,
     # placements inside / partial / touching / disjoint
     mixed = [(s_, d_) for s_ in ("uint8", "int16", "uint16", "int32", "float32") for d_ in ("float32", "float64", "int32", "int16")
@@ -595,6 +731,8 @@ def run(out, tier, scratch):
     out.assumptions += [
         "GDAL nearest-neighbour warp meets the contract dst[d] = src[floor(A(d+1/2))] if inside else nodata (validated on every run, all dtypes)",
         "numpy slicing semantics of dst[roi_dst] = src[roi_src][::-1] (validated by the CPaste cases)",
+        "stacks: rio_reproject / xr_reproject warp every 2-d plane of an n-d array independently (ydim names the Y axis); the dask path "
+        "fills destination chunks that do not touch the source with the same fill as the warped ones",
         "mixed pixel types: rio_reproject casts source values to the destination type and fills uncovered pixels with dst_nodata, else NaN "
         "for float destinations, else 0 (validated for 16 source/destination type pairs)",
         "accumulating warps: rio_reproject(..., init_dest_nodata=False) writes only covered pixels and keeps the rest of dst (validated for 8 dtypes)",
